@@ -52,6 +52,11 @@ type DB struct {
 
 	// Result, when set, is served for every query regardless of its text.
 	Result *Table
+
+	// TextAsBytes makes the driver deliver text values as []byte slices of one buffer that it reuses
+	// (and overwrites) for every row, as drivers reading from a network buffer do. database/sql allows this:
+	// such values are only valid until the next call to Next.
+	TextAsBytes bool
 }
 
 // New creates an empty database.
@@ -158,6 +163,7 @@ type rows struct {
 	db  *DB
 	t   *Table
 	pos int
+	buf []byte
 }
 
 func (r *rows) Columns() []string { return append([]string(nil), r.t.Cols...) }
@@ -175,6 +181,30 @@ func (r *rows) Next(dest []driver.Value) error {
 		return io.EOF
 	}
 	copy(dest, r.t.Rows[r.pos])
+	if r.db.TextAsBytes {
+		// invalidate what the previous row pointed to, then lay out this row's text in the same buffer
+		for i := range r.buf {
+			r.buf[i] = '#'
+		}
+		need := 0
+		for _, v := range dest {
+			if sv, ok := v.(string); ok {
+				need += len(sv)
+			}
+		}
+		if cap(r.buf) < need {
+			r.buf = make([]byte, need, 2*need+16)
+		}
+		r.buf = r.buf[:need]
+		off := 0
+		for i, v := range dest {
+			if sv, ok := v.(string); ok {
+				n := copy(r.buf[off:], sv)
+				dest[i] = r.buf[off : off+n : off+n]
+				off += n
+			}
+		}
+	}
 	if f.BadValueAt >= 0 && r.pos == f.BadValueAt && len(dest) > 0 {
 		dest[0] = []int{1} // not a valid driver.Value for a Scanner based on basic types
 	}
